@@ -61,17 +61,29 @@ def one_case(spec, opts, fault, ftype="exception", pre_runs=0):
     ex = runner.Exec(spec, opts)
     bootstrap.set_observer(runner.make_observer(ex, phases=(), fault=fault, fault_type=runner.InjectedInterrupt if ftype == "interrupt" else runner.InjectedFault))
     err = None
+    import warnings
+
     try:
-        a.project.backward_simulate(**back_kwargs(opts))
+        if opts.get("warn_error"):
+            # the caller runs with warnings turned into errors: the "Time Over" warning of the cut inner run aborts backward_simulate
+            with warnings.catch_warnings():
+                warnings.simplefilter("error")
+                a.project.backward_simulate(**back_kwargs(opts))
+        else:
+            a.project.backward_simulate(**back_kwargs(opts))
     except (runner.InjectedFault, runner.InjectedInterrupt):
         err = "injected"
+    except Warning:
+        err = "injected"  # an abort like any other
     except Exception as e:
         err = repr(e)
     finally:
         bootstrap.clear_observer()
-    tag = ("after-injected-%s" % ftype) if fault else "after-normal-run"
+    tag = ("after-injected-%s" % ftype) if fault else ("after-warning-as-error" if opts.get("warn_error") else "after-normal-run")
     if err is not None and err != "injected":
         out.append(("C17:backward_simulate-raised:%s" % err.split("(")[0], {"error": err}))
+    if opts.get("warn_error") and err is None:
+        fault = None
     if fault and err is None:
         # the fault point lies beyond the end of the inner run: nothing was injected
         return out, ex.steps, None
@@ -191,6 +203,9 @@ def items(tier):
                 out.append((sp, {"rule": "TSLACK", "due": False, "rev": rev, "absence": [], "max_time": F.seq_bound(sp) + 12}))
     for sp, o in list(out)[:: (29 if tier == "quick" else 7)]:
         out.append((sp, dict(o, via_json=True)))
+    for sp, o in list(out)[:: (23 if tier == "quick" else 6)]:
+        for mt in (1, 2, 3):
+            out.append((sp, dict(o, warn_error=True, max_time=mt)))  # the run is cut by max_time while warnings are errors
     for sp in F.scale_specs():
         if sp["label"] in ("scale:layers3x4", "scale:seven-predecessors", "scale:chain10+branches", "scale:nine-successors", "scale:ten-predecessors"):
             out.append((sp, {"rule": "TSLACK", "due": False, "rev": True, "absence": [], "max_time": F.seq_bound(sp) + 20}))
